@@ -252,7 +252,7 @@ func doCrash(t *task, res *result, progress func()) {
 		// one generation 2 per distinct recovered state of this task
 		res.G2 = &g2stats{}
 		res.G2Tasks = 1
-		g2 = &g2state{cfg: t.G2, seg: t.Seg, seen: map[string]bool{}, stats: res.G2}
+		g2 = &g2state{cfg: t.G2, seg: t.Seg, seen: map[string]bool{}, stats: res.G2, progress: progress}
 	}
 	for k := first; k < len(r.rec.obs); k++ {
 		o := r.rec.obs[k]
